@@ -23,9 +23,12 @@
     `C04_partial_add_outcome`: `remove` never raises or diverges, `add` (no auto-resize) succeeds
     or is refused with `QuotientFilterError` exactly when the hash is new and the table is full.
     `C04_setOf_spec`, `C04_setOf_sorted`: the specification set is the mathematical one.
-  * `C04_exact_set_bounded`: the full exact-set statement WITHOUT hypotheses for histories of any
-    length over the 7-element universe `QFBounded.UA` on an 8-slot table (the four refinement
-    facts are established there by exhaustive kernel evaluation).
+  * `C04_exact_set_universe` (+ instances `C04_exact_set_bounded` for the 7-element universe
+    `QFBounded.UA`, `C04_exact_set_bounded_B` for the 6-element universe `QFBounded.UB`): the full
+    exact-set statement WITHOUT refinement hypotheses for `add`/`remove` histories of ANY length
+    over a universe of elements of the 8-slot table for which the four refinement facts have been
+    established by exhaustive kernel evaluation (`UniverseOK`).
+  * `C04_run_prefix`: a history that ends in `.ok` contains no call that raised or diverged.
   * small unconditional facts: `C04_new`, `C04_new_arrays`, `C04_layout_shape`, `C04_check_empty`,
     `C04_add_first`, `C04_add_refused_iff`, `C04_add_refused_unchanged`, `C04_remove_absent`,
     `C04_shape_add`, `C04_shape_remove`, `C04_count_step_add`, `C04_count_step_remove`,
@@ -96,7 +99,7 @@ def Op.InRange : Op → Prop
   | .merge hs => ∀ h ∈ hs, h < 2 ^ 32
 
 /-- one call on the model; `b` is the model's budget for nested resizes (the driver uses
-    `QF.budgetOf s = 80`; `QF.merge s hs` is `addAll (budgetOf s) s hs`).  A `merge` that fails half
+    `QF.budgetOf s = 4·count + 128`; `QF.merge s hs` is `addAll (budgetOf s + 4·|hs|) s hs`).  A `merge` that fails half
     way counts as raised. -/
 def step (b : Nat) (s : QF) : Op → R QF
   | .add h => addAlt b s h
@@ -833,7 +836,7 @@ universe, of any length, is an exact set. -/
 
 /-- the (decidable) facts about a universe `U` of elements of the 8-slot table that the exhaustive
     evaluation establishes -/
-structure QFBounded.UniverseOK (U : List Elem) : Prop where
+structure UniverseOK (U : List Elem) : Prop where
   contained : QFBounded.checkContained U = true
   hashes : QFBounded.checkHashes U = true
   add : QFBounded.checkAdd U = true
@@ -842,11 +845,11 @@ structure QFBounded.UniverseOK (U : List Elem) : Prop where
   small : ∀ y ∈ U, y.2 < 8
   nil : [] ∈ QFBounded.subsets U
 
-theorem QFBounded.UniverseOK_UA : QFBounded.UniverseOK QFBounded.UA :=
+theorem UniverseOK_UA : UniverseOK QFBounded.UA :=
   ⟨QFBounded.checkContained_UA, QFBounded.checkHashes_UA, QFBounded.checkAdd_UA,
     QFBounded.checkRemove_UA, QFBounded.checkClosed_UA, by decide, by decide⟩
 
-theorem QFBounded.UniverseOK_UB : QFBounded.UniverseOK QFBounded.UB :=
+theorem UniverseOK_UB : UniverseOK QFBounded.UB :=
   ⟨QFBounded.checkContained_UB, QFBounded.checkHashes_UB, QFBounded.checkAdd_UB,
     QFBounded.checkRemove_UB, QFBounded.checkClosed_UB, by decide, by decide⟩
 
@@ -873,7 +876,7 @@ private theorem jb_step {U : List Elem} (hU : UniverseOK U) (b : Nat) (s : QF) (
     (∀ t, step (b + 1) s (.remove (enc 3 x)) = .ok t → JB U t (absStep false a (.remove (enc 3 x)))) := by
   have hde := UA_dec_enc hU x hx
   have hlen : (pairs 3 a.H).length < 8 := by simp only [pairs, List.length_map]; exact hJ.len
-  obtain ⟨hC, hins, hers⟩ := closed_sub hU.closed hJ.sub hlen hx
+  obtain ⟨hins, hers⟩ := closed_sub hU.closed hJ.sub hlen hx
   have hs := hJ.eq
   have e1 : (layout 3 false (pairs 3 a.H)).quotOf (enc 3 x) = x.1 := by
     show (dec 3 (enc 3 x)).1 = x.1
